@@ -69,6 +69,11 @@ func scanUnpushed(cb GitScannerFoundPointer, remote string) error {
 	// Add standard search args to find lfs references
 	logArgs = append(logArgs, logLfsSearchArgs...)
 
+	// Show what a merge commit adds relative to each of its parents as
+	// well: by default "git log -p" shows no diff for merges, so objects
+	// introduced by the merge commit itself would go unnoticed.
+	logArgs = append(logArgs, "-m")
+
 	cmd, err := git.Log(logArgs...)
 	if err != nil {
 		return err
